@@ -46,6 +46,10 @@ func runC04(c *core.Ctx) {
 		runC04SlowHandler(c)
 		return
 	}
+	if t.Bias(1, 12, "late-signal") {
+		runC04LateSignal(c)
+		return
+	}
 	if t.Bias(1, 12, "handler-view") {
 		runC04HandlerView(c)
 		return
